@@ -161,7 +161,7 @@ impl Property for C02 {
         }
     }
     fn floors(&self, _tier: Tier) -> Vec<(&'static str, f64)> {
-        vec![("rule:end-tag-mismatch", 0.01), ("rule:dup-attr", 0.005), ("rule:illegal-char", 0.01), ("rule:undeclared-entity", 0.005)]
+        vec![("rule:end-tag-mismatch", 0.006), ("rule:dup-attr", 0.003), ("rule:illegal-char", 0.006), ("rule:undeclared-entity", 0.003)]
     }
 }
 
